@@ -5,9 +5,9 @@
 
    Pattern operators: the pattern of a word is [pattern_of w] (quoted parts backslash-escaped, as bash's
    quote_string_for_globbing does) parsed into tokens [toks a]; fragment * ? literal \x.
-   Not proved (by search and code leg only): the shortest/longest optimality of ${v#p} ${v##p}
-   (C21_remove_prefix_partial proves that a matching prefix is removed, or nothing when none matches),
-   C21_replace, and C21_elementwise; see notes/C21.md. *)
+   Not proved (by search and code leg only): the shortest/longest optimality of ${v#p} ${v##p} and of
+   ${v/#p/w} (a matching prefix is removed / replaced, or nothing when none matches), which match is taken
+   at the leftmost position by ${v/p/w}, the global form ${v//p/w}, and C21_elementwise; see notes/C21.md. *)
 From Verif Require Import Base.Str Expand.Param Expand.ParamSpec Proofs.ParamMatchProofs Proofs.ParamProofs.
 Open Scope N_scope.
 
@@ -89,6 +89,53 @@ Theorem C21_case : forall upper lower quote e name i op w v a conv all,
     param_exp upper lower quote e (mkP name i (PExp op w)) = OOk (bash_case conv all m (cur v), None).
 Proof. exact case_param. Qed.
 Print Assumptions C21_case.
+
+(* ${p/%pat/w}: the longest suffix matching pat is replaced by w; unchanged when no suffix matches *)
+Theorem C21_replace_anchored_end : forall upper lower quote e name i orig w s p a,
+  is_params_name name = false -> is_list_idx i = false ->
+  bash_value (env_get e name) i = PVal (Some s) ->
+  split_anchor false orig (pattern_of orig) = (AEnd, p) ->
+  pat_atoms p = PatOk a ->
+  exists r, param_exp upper lower quote e (mkP name i (PRepl false orig w)) = OOk (r, None) /\
+    ((exists pre suf, s = pre ++ suf /\ pmatch (toks a) suf /\ r = pre ++ literal_of w /\
+        forall pre' suf', s = pre' ++ suf' -> pmatch (toks a) suf' -> (length suf' <= length suf)%nat)
+     \/ (r = s /\ forall pre suf, s = pre ++ suf -> ~ pmatch (toks a) suf)).
+Proof. exact replace_end_param. Qed.
+Print Assumptions C21_replace_anchored_end.
+
+(* ${p/#pat/w}: a matching prefix is replaced (partial: not shown to be the longest) *)
+Theorem C21_replace_anchored_begin_partial : forall upper lower quote e name i orig w s p a,
+  is_params_name name = false -> is_list_idx i = false ->
+  bash_value (env_get e name) i = PVal (Some s) ->
+  split_anchor false orig (pattern_of orig) = (ABegin, p) ->
+  pat_atoms p = PatOk a ->
+  exists r, param_exp upper lower quote e (mkP name i (PRepl false orig w)) = OOk (r, None) /\
+    ((exists pre suf, s = pre ++ suf /\ pmatch (toks a) pre /\ r = literal_of w ++ suf)
+     \/ (r = s /\ forall pre suf, s = pre ++ suf -> ~ pmatch (toks a) pre)).
+Proof. exact replace_begin_param. Qed.
+Print Assumptions C21_replace_anchored_begin_partial.
+
+(* ${p/pat/w}: an occurrence starting at the leftmost matching position is replaced
+   (partial: which match at that position is not characterised) *)
+Theorem C21_replace_first_partial : forall upper lower quote e name i orig w s p a,
+  is_params_name name = false -> is_list_idx i = false ->
+  bash_value (env_get e name) i = PVal (Some s) ->
+  split_anchor false orig (pattern_of orig) = (ANone, p) ->
+  p <> [] ->
+  pat_atoms p = PatOk a ->
+  exists r, param_exp upper lower quote e (mkP name i (PRepl false orig w)) = OOk (r, None) /\
+    ((exists pre mid post, s = pre ++ mid ++ post /\ pmatch (toks a) mid /\ r = pre ++ literal_of w ++ post /\
+        forall pre' mid' post', s = pre' ++ mid' ++ post' -> pmatch (toks a) mid' -> (length pre <= length pre')%nat)
+     \/ (r = s /\ forall pre mid post, s = pre ++ mid ++ post -> ~ pmatch (toks a) mid)).
+Proof. exact replace_first_param. Qed.
+Print Assumptions C21_replace_first_partial.
+
+Theorem C21_replace_unset : forall upper lower quote e name i all orig w,
+  is_params_name name = false -> is_list_idx i = false ->
+  bash_value (env_get e name) i = PVal None ->
+  param_exp upper lower quote e (mkP name i (PRepl all orig w)) = OOk ([], None).
+Proof. exact replace_unset_param. Qed.
+Print Assumptions C21_replace_unset.
 
 Example C21_remove_nonvacuous :
   (* v = b NL a b ; ${v%*b} = b NL a (shortest suffix across the newline, repaired) ; ${v%%"*"b} unchanged *)
